@@ -22,7 +22,7 @@ from ..rat import ppb
 from .. import tlc
 from ..ms import Sink, relerr
 
-VARIANTS = [(b, s) for b in ("1", "2", "4", "auto") for s in ("synchronous", "threads")]
+VARIANTS = [(b, s) for b in ("1", "3", "6", "auto") for s in ("synchronous", "threads")]
 
 
 def build_scenario(s):
@@ -54,7 +54,7 @@ def build_scenario(s):
     scan = {"none": None, "custom": abtem.CustomScan(np.array([[1.0, 1.5], [2.5, 0.5], [0.2, 3.3]])),
             "line": abtem.LineScan(start=(0.5, 0.5), end=(3.0, 2.0), gpts=4, endpoint=False),
             "grid": abtem.GridScan(start=(0, 0), end=(2.0, 3.0), gpts=(2, 3)),
-            "grid_uneven": abtem.GridScan(start=(0.3, 0.1), end=(2.7, 3.6), gpts=(3, 5))}[s["scan"]]
+            "grid_uneven": abtem.GridScan(start=(0.3, 0.1), end=(1.1, 3.7), gpts=(2, 8))}[s["scan"]]
 
     def run(lazy, max_batch):
         with warnings.catch_warnings():
@@ -158,7 +158,7 @@ def self_test(ctx: Ctx):
     v = lambda mb, sc, **kw: dict({"mb": mb, "sched": sc, "outcome": "ok", "type_eq": True, "shape_eq": True, "axes_eq": True, "meta_eq": True,
                                    "err_ppb": 100, "blocks": 3, "expected_blocks": 3}, **kw)
     good = {"eager_outcome": "ok", "variants": [v(b, s) for b, s in VARIANTS]}
-    b1 = {"eager_outcome": "ok", "variants": [v(b, s, outcome=("IndexError" if (b, s) == ("2", "threads") else "ok")) for b, s in VARIANTS]}
+    b1 = {"eager_outcome": "ok", "variants": [v(b, s, outcome=("IndexError" if (b, s) == ("3", "threads") else "ok")) for b, s in VARIANTS]}
     b2 = {"eager_outcome": "ok", "variants": [v(b, s, err_ppb=(10 ** 8 if b == "1" else 0)) for b, s in VARIANTS]}
     b3 = {"eager_outcome": "ok", "variants": [v(b, s) for b, s in VARIANTS[:-1]]}        # a variant not observed
     b4 = {"eager_outcome": "ok", "variants": [v(b, s, axes_eq=(b != "auto")) for b, s in VARIANTS]}
@@ -173,8 +173,8 @@ def run(ctx: Ctx):
     quick = ctx.tier == "quick"
     ctx.rule = ("scenarios = builder x potential kind (atoms, frozen phonons with/without mean, atoms ensemble, crystal potential, built "
                 "array) x exit planes (none, int, tuple) x detector set (waves, annular, flexible annular, segmented, pixelated, two "
-                "detectors) x scan (none, custom, line, 2x3 grid, 3x5 grid) x CTF application, pruned by Pipeline!Valid, enumerated by TLC; each run "
-                "eagerly and lazily for max_batch {1, 2, 4, auto} x scheduler {synchronous, threads}; non-trivial = every scenario")
+                "detectors) x scan (none, custom, line, 2x3 grid, 2x8 grid) x CTF application, pruned by Pipeline!Valid, enumerated by TLC; each run "
+                "eagerly and lazily for max_batch {1, 3, 6, auto} x scheduler {synchronous, threads}; non-trivial = every scenario")
     ctx.design_check("PipelineModel", "PipelineSched.cfg", label="schedule confluence (4 blocks, 3 workers)")
     r = ctx.design_check("PipelineModel", "PipelineScn.cfg", label="scenario enumeration", workers=1)
     self_test(ctx)
